@@ -43,6 +43,6 @@ package checkpoint
 //@ func restorer.RestoreChunk
 //@   props C12
 //@   requires rs != nil
-//@   precall checkpoint\.restoreChunk$ :: err == nil && chunk != nil && chunk.Index == idx
+//@   precall checkpoint\.restoreChunk$ :: err == nil && chunk != nil && chunk.Index == idx && rs.pendingChunks[idx]
 //@   ensures db.GFinalizes == old(db.GFinalizes)
 //@   note a chunk is imported only with the metadata the current checkpoint holds for its index; concurrency (two callers racing on the same pending index) is outside what a sequential contract can state
